@@ -49,21 +49,35 @@ const (
 	cfgA = "A" // the dev configuration as booted: one chain id at every height
 	cfgB = "B" // two chain ids: OriginalChainId below the Proposal001 fork, ChainId from it on
 
-	chainA     = "9500"
-	chainBNew  = "7777"
-	chainBOrig = "6666"
-	forkB      = uint64(1000)
+	chainA    = "9500"
+	chainBNew = "7777"
+	forkB     = uint64(1000)
 )
+
+// forkedCfg: configurations with two chain ids (OriginalChainId below height
+// forkB, ChainId from it on). C has tiny ids (chain-27 / chain-28 reach 0 and 1),
+// D a 32-bit and an 80-bit id (v no longer fits 64 bits).
+var forkedCfg = map[string][2]string{
+	cfgB: {"6666", chainBNew},
+	"C":  {"1", "28"},
+	"D":  {"2147483648", "604462909807314587353111"},
+}
+
+var allCfgs = []string{cfgA, cfgB, "C", "D"}
 
 // expectedChain is the harness' own statement of "the chain's id at height h".
 func expectedChain(cfg string, h uint64) string {
 	if cfg == cfgA {
 		return chainA
 	}
-	if h >= forkB {
-		return chainBNew
+	f, ok := forkedCfg[cfg]
+	if !ok {
+		panic("unknown configuration " + cfg)
 	}
-	return chainBOrig
+	if h >= forkB {
+		return f[1]
+	}
+	return f[0]
 }
 
 var heightsA = []uint64{0, 1, 10, 999, 1000, 1 << 32, math.MaxUint64}
@@ -90,10 +104,10 @@ func otherSideHeight(h uint64, rng *rand.Rand) uint64 {
 
 func boot(cfg string) string {
 	dir := env.ScratchDir("verif-c07-")
-	if cfg == cfgB {
+	if f, ok := forkedCfg[cfg]; ok {
 		env.BootServices(env.Forks{Override: map[int]uint64{1: forkB}})
-		common.LocalChainConfig.ChainId = chainBNew
-		common.LocalChainConfig.OriginalChainId = chainBOrig
+		common.LocalChainConfig.ChainId = f[1]
+		common.LocalChainConfig.OriginalChainId = f[0]
 	} else {
 		env.BootServices(env.Forks{})
 	}
@@ -893,7 +907,7 @@ func (x *runner) runNative(b *nativeBase) {
 			x.mutant("resigned:chainid="+cid, "accepted-resigned:wrong-chain", true, resign(setField(tx, "ChainId", cid), b.sk), h)
 		}
 	}
-	if x.cfg == cfgB {
+	if x.cfg != cfgA {
 		x.mutant("wrong-height", "accepted-wrong-height", true, tx, otherSideHeight(h, rng))
 	}
 
@@ -909,9 +923,9 @@ func otherChain(cfg string, h uint64) string {
 		return "9501"
 	}
 	if h >= forkB {
-		return chainBOrig
+		return forkedCfg[cfg][0]
 	}
-	return chainBNew
+	return forkedCfg[cfg][1]
 }
 
 // boundaryShifts moves characters between neighbouring fields of the GenHash
@@ -1214,6 +1228,63 @@ func rlpBits(n int, rng *rand.Rand) []int {
 	return bits
 }
 
+type vLabel struct {
+	name string
+	v    *big.Int
+	core bool // also evaluated as ExtraData-only mutation
+}
+
+// vRelabelSet lists the V values a payload on chain c is relabelled with: both
+// parities of 35+2c' for c' in 0..40, c+-1..60, c/2, 2c, c+-27, c+-28, c+-128; the
+// values whose rest V-2c-8 is a near miss of the plain 27/28 (negative, off by
+// one, off by 256); pre-EIP-155 and raw recovery ids; huge values. Negative V
+// cannot be encoded and is left out.
+func vRelabelSet(c *big.Int) []vLabel {
+	var out []vLabel
+	add := func(name string, v *big.Int, core bool) {
+		if v.Sign() >= 0 {
+			out = append(out, vLabel{name, v, core})
+		}
+	}
+	addChain := func(cp *big.Int, core bool) {
+		if cp.Sign() < 0 {
+			return
+		}
+		for recid := byte(0); recid < 2; recid++ {
+			add(fmt.Sprintf("eip155(c'=%s,recid=%d)", cp, recid), ethtx.V155(cp, recid), core)
+		}
+	}
+	for i := int64(0); i <= 40; i++ {
+		addChain(big.NewInt(i), false)
+	}
+	for k := int64(1); k <= 60; k++ {
+		addChain(new(big.Int).Add(c, big.NewInt(k)), false)
+		addChain(new(big.Int).Sub(c, big.NewInt(k)), k == 27 || k == 28)
+	}
+	addChain(new(big.Int).Rsh(c, 1), false)
+	addChain(new(big.Int).Lsh(c, 1), false)
+	for _, k := range []int64{128, 127, 256} {
+		addChain(new(big.Int).Add(c, big.NewInt(k)), false)
+		addChain(new(big.Int).Sub(c, big.NewInt(k)), false)
+	}
+	base := new(big.Int).Add(new(big.Int).Lsh(c, 1), big.NewInt(8)) // 2c+8
+	for _, rest := range []int64{-28, -27, -26, -29, -1, 0, 1, 26, 29, 255, 256, -255, -256, 283, 284, -283, -284, 27 + 65536, -27 - 65536} {
+		add(fmt.Sprintf("rest=%d", rest), new(big.Int).Add(base, big.NewInt(rest)), true)
+	}
+	for _, v := range []int64{0, 1, 2, 3, 27, 28, 29, 30, 35, 36} {
+		add(fmt.Sprintf("plain=%d", v), big.NewInt(v), true)
+	}
+	one := big.NewInt(1)
+	honest0 := ethtx.V155(c, 0)
+	for _, sh := range []uint{8, 16, 32, 63, 64, 72, 128, 255} {
+		add(fmt.Sprintf("honest+2^%d", sh), new(big.Int).Add(honest0, new(big.Int).Lsh(one, sh)), sh == 64)
+		add(fmt.Sprintf("27+2^%d", sh), new(big.Int).Add(big.NewInt(27), new(big.Int).Lsh(one, sh)), false)
+	}
+	add("2^64-1", new(big.Int).Sub(new(big.Int).Lsh(one, 64), one), false)
+	add("2^256-1", max256, false)
+	return out
+}
+
 func (x *runner) runEth(b *ethBase) {
 	r := x.r
 	rng := r.Rand("eth-mut", x.idx)
@@ -1241,7 +1312,9 @@ func (x *runner) runEth(b *ethBase) {
 		}{
 			{"gasLimit+1", func(c *types.ContractData) { c.GasLimit = strconv.FormatUint(b.ref.Gas+1, 10) }},
 			{"gasPrice+1", func(c *types.ContractData) { c.GasPrice = new(big.Int).Add(b.ref.GasPrice, one).String() }},
-			{"abiData-append", func(c *types.ContractData) { c.AbiData = "0x" + hex.EncodeToString(append(append([]byte{}, b.ref.Data...), 0x01)) }},
+			{"abiData-append", func(c *types.ContractData) {
+				c.AbiData = "0x" + hex.EncodeToString(append(append([]byte{}, b.ref.Data...), 0x01))
+			}},
 			{"abiData-upper", func(c *types.ContractData) { c.AbiData = "0x" + strings.ToUpper(strings.TrimPrefix(cd.AbiData, "0x")) }},
 			{"transferValue-append-0", func(c *types.ContractData) {
 				if strings.Contains(c.TransferValue, ".") {
@@ -1388,6 +1461,29 @@ func (x *runner) runEth(b *ethBase) {
 		}
 	}
 
+	// (4b) V relabelling: the honest R,S (and the twin R, n-S) under every V of a
+	// structured set; the wrapper is rebuilt from the relabelled payload exactly as the
+	// node's conversion would derive it (chain id from that V, hash of that payload)
+	// and claims the honest sender. Only the honest (payload, wrapper) may verify.
+	nS := new(big.Int).Sub(ethtx.N, b.ref.S)
+	for _, rv := range vRelabelSet(b.chain) {
+		for ti, sv := range []*big.Int{b.ref.S, nS} {
+			t := b.ref
+			t.V, t.S = rv.v, sv
+			menc := t.Encode()
+			name := rv.name
+			if ti == 1 {
+				name += ":twin"
+			}
+			if rv.core && ti == 0 {
+				x.mutant("v-relabel="+name+":stale", "accepted-mutant:rlp-field=v-relabel", true, setField(tx, "ExtraData", hex0x(menc)), h)
+			}
+			if fw := wrap(menc, b.sender); fw != nil {
+				x.mutant("v-relabel="+name+":forgery", "accepted-forgery:rlp-field=v-relabel", true, fw, h)
+			}
+		}
+	}
+
 	// (5) honestly signed by the same key, but not for this chain
 	unsigned := b.ref
 	unsigned.V, unsigned.R, unsigned.S = nil, nil, nil
@@ -1406,7 +1502,7 @@ func (x *runner) runEth(b *ethBase) {
 			x.mutant("unprotected:homestead", "accepted-unprotected:homestead-v27-28", true, fw, h)
 		}
 	}
-	if x.cfg == cfgB {
+	if x.cfg != cfgA {
 		x.mutant("wrong-height", "accepted-wrong-height", true, tx, otherSideHeight(h, rng))
 	}
 
@@ -1437,6 +1533,11 @@ func childMain(r *mon.Run, args []string) {
 	from, _ := strconv.Atoi(args[2])
 	to, _ := strconv.Atoi(args[3])
 	dir := boot(cfg)
+	if kind == "conc" {
+		n := concPhase(r, cfg, from)
+		cleanup(dir)
+		r.Finish(mon.Coverage{Evaluations: n})
+	}
 	x := &runner{r: r, pool: service.GetTransactionPool()}
 	if len(args) > 4 {
 		x.only = args[4]
@@ -1456,12 +1557,13 @@ func cleanup(dir string) {
 }
 
 const rule = "bases: seeded key pairs (random, tiny, leading-zero, near-order scalars; loaded with HexStringToSecKey / BytesToSecKey / eth ToECDSA) x contents " +
-	"(empty strings, JSON, unicode, invalid UTF-8, digit strings, 4 KiB-1 MiB Data, nonce 0 / 2^64-1, contract creation, boundary RLP sizes) in two chain configurations " +
-	"(A: dev ids; B: OriginalChainId below / ChainId from the Proposal001 fork). Native: Hash=GenHash(), PrivateKey.Sign; ETH: EIP-155 legacy tx built, RLP-encoded, hashed by the independent reference and wrapped with ConvertTx. " +
+	"(empty strings, JSON, unicode, invalid UTF-8, digit strings, 4 KiB-1 MiB Data, nonce 0 / 2^64-1, contract creation, boundary RLP sizes) in four chain configurations " +
+	"(A: dev id 9500; B, C, D: OriginalChainId below / ChainId from the Proposal001 fork with ids 6666/7777, 1/28, 2^31/2^79+23). Native: Hash=GenHash(), PrivateKey.Sign; ETH: EIP-155 legacy tx built, RLP-encoded, hashed by the independent reference and wrapped with ConvertTx. " +
 	"Mutants per base: every string/number mutation (empty, truncate, extend, case, +-1, bit flips, swaps, prefixes) of every authenticated field, all 256 Hash bit flips, all 520 signature bit flips (native), " +
 	"RLP payload bit flips (all up to 256 B; head, tail and a sample beyond) both as ExtraData-only mutation and as re-derived wrapper claiming the honest sender, ExtraData spelling variants, " +
-	"one-field changes inside the signed payload, signature algebra (high-s twin, recid/v range, r=0, s=0, r>=n, s>=n), re-hashed and re-signed forgeries, foreign-chain / unprotected signatures, wrong height. " +
+	"one-field changes inside the signed payload, V relabelling (honest R,S and the twin under ~400 structured V values: other chain ids, near-miss rests of V-2c-8, 27/28, 0/1, huge; wrapper re-derived consistently), signature algebra (high-s twin, recid/v range, r=0, s=0, r>=n, s>=n), re-hashed and re-signed forgeries, foreign-chain / unprotected signatures, wrong height. " +
 	"Non-trivial = judged mutant (differs from its base in what VerifyTransaction can see; honest cases are the control); distinct = measured per base by content fingerprint, bases distinct by hash. " +
+	"Concurrent phase: 32 verifier goroutines on 16 Ps and a goroutine forcing garbage collections, each verifier with its own stream of honest transactions (up to 1 MiB Data / ExtraData) and interleaved mutants, fixed number of rounds; every verdict must equal the oracle and the sequential verdict of the same transaction. " +
 	"Unauthenticated fields, the recid 0/1 alias and multi-field boundary shifts are evaluated and counted (info_*) but not judged."
 
 func main() {
@@ -1486,22 +1588,27 @@ func main() {
 			if to > n {
 				to = n
 			}
-			cfg := cfgA
-			if b%2 == 1 {
-				cfg = cfgB
-			}
+			cfg := allCfgs[b%len(allCfgs)]
 			specs = append(specs, mon.ChildSpec{Label: fmt.Sprintf("%s-%s-%d", kind, cfg, from),
 				Args: []string{kind, cfg, strconv.Itoa(from), strconv.Itoa(to)}, Timeout: timeout})
 		}
 	}
+	// concurrent phases first
+	for i := 0; i < r.Pick(2, 8); i++ {
+		cfg := allCfgs[i%len(allCfgs)]
+		specs = append(specs, mon.ChildSpec{Label: fmt.Sprintf("conc-%s-%d", cfg, i), Args: []string{"conc", cfg, strconv.Itoa(i), strconv.Itoa(i + 1)}, Timeout: timeout})
+	}
+	nConc := len(specs)
 	add("eth", nEth) // the slower batches first
 	add("native", nNative)
 	results := r.RunChildren(specs, runtime.NumCPU())
 	// absorb one native batch right after the first ETH batch so that the evidence
 	// samples (first six) show both kinds
-	order := []int{0, len(results) - 1}
-	for i := 1; i < len(results)-1; i++ {
-		order = append(order, i)
+	order := []int{nConc, len(results) - 1}
+	for i := 0; i < len(results)-1; i++ {
+		if i != nConc {
+			order = append(order, i)
+		}
 	}
 	for _, i := range order {
 		r.Absorb(results[i], "C07:"+results[i].Spec.Args[0])
@@ -1528,7 +1635,8 @@ func main() {
 		},
 		MustObserve: []string{"honest_native_accepted", "honest_eth_accepted", "judged_native", "judged_eth", "eth_conversion_checked",
 			"rejected_native:ErrHash", "rejected_native:ErrSign", "rejected_native:ErrChainId", "rejected_eth:ErrIllegal",
-			"judged_native:mutant:sign-bitflip", "judged_eth:mutant:rlp-bitflip", "judged_eth:forgery:rlp-bitflip"},
+			"judged_native:mutant:sign-bitflip", "judged_eth:mutant:rlp-bitflip", "judged_eth:forgery:rlp-bitflip", "judged_eth:forgery:rlp-field=v-relabel",
+			"concurrent_overlapping_verifications", "concurrent_honest_accepted", "concurrent_mutants_rejected"},
 	})
 }
 
@@ -1561,7 +1669,10 @@ func replay(r *mon.Run, path string) {
 	}
 	dir := boot(w.Cfg)
 	x := &runner{r: r, pool: service.GetTransactionPool(), kind: w.Kind, cfg: w.Cfg, idx: w.Idx}
-	if w.Tx != nil {
+	if w.Kind == "conc" {
+		// a concurrent phase is re-run as a whole (same streams, new schedule)
+		x.evals = concPhase(r, w.Cfg, w.Idx)
+	} else if w.Tx != nil {
 		tx := fromTxJSON(w.Tx)
 		ww := &wit{Kind: w.Kind, Cfg: w.Cfg, Idx: w.Idx, Mut: w.Mut, Class: w.Class, Expect: w.Expect, Height: w.Height, tx: tx}
 		verr, panicked := x.verify(ww)
